@@ -130,9 +130,14 @@ def run(ctx) -> None:
                     judge(ctx, "valid_range", "axds.valid_range_test", {"inp": inp(), "valid_span": (0, 2)}, miss, none,
                           none, case)
                 for meth in ("average", "differential"):
-                    judge(ctx, f"spike-{meth}", "qartod.spike_test",
-                          {"inp": inp(), "suspect_threshold": 0.2, "fail_threshold": 2, "method": meth}, miss,
-                          lambda k: (k > 0 and miss[k - 1]) or (k < n - 1 and miss[k + 1]), ends, case)
+                    for st_, ft_ in ((0.2, 2), (None, None), (None, 2), (0.2, None)):
+                        p_ = {"method": meth}
+                        if st_ is not None:
+                            p_["suspect_threshold"] = st_
+                        if ft_ is not None:
+                            p_["fail_threshold"] = ft_
+                        judge(ctx, f"spike-{meth}|s{st_}f{ft_}", "qartod.spike_test", {"inp": inp(), **p_}, miss,
+                              lambda k: (k > 0 and miss[k - 1]) or (k < n - 1 and miss[k + 1]), ends, case)
                 judge(ctx, "rate_of_change", "qartod.rate_of_change_test", {"inp": inp(), "tinp": T(n), "threshold": 0.01},
                       miss, lambda k: k > 0 and miss[k - 1], none, case)
                 judge(ctx, "flat_line", "qartod.flat_line_test",
@@ -171,7 +176,7 @@ def run(ctx) -> None:
                 z = [float(k) for k in range(n)]
                 judge(ctx, "density_inversion", "qartod.density_inversion_test",
                       {"inp": carrier(rho, ma, marker, 1025.0), "zinp": carrier(z, mb, marker, 2.0),
-                       "suspect_threshold": 0.3, "fail_threshold": -0.3},
+                       **[{"suspect_threshold": 0.3, "fail_threshold": -0.3}, {}, {"suspect_threshold": 0.3}, {"fail_threshold": 0.3}][len(pl) % 4]},
                       [a for a in ma],  # the tested observation is the density
                       lambda k: mb[k] or (k > 0 and (ma[k - 1] or mb[k - 1])),
                       lambda k: n == 1 or mb[k] or (k > 0 and (ma[k - 1] or mb[k - 1])), {**case, "rho": rho, "z": z})
